@@ -13,6 +13,7 @@ import FairModel.Model.Proto
 import FairModel.Generated.ThresholdTables
 import FairModel.Generated.TradeoffSrc
 import FairModel.Generated.ThresholderSrc
+import FairModel.Generated.ThresholdFitSrc
 
 namespace Threshold
 open ThresholdGen
@@ -202,8 +203,11 @@ def interpolateAt (hull : List Pt) (i : Nat) (g : Rat) : Option Interp :=
                p1 := TradeoffSrc.interpP1 a.x b.x g, op1 := if TradeoffSrc.op1FromNext then b.op else a.op }
     | _, _ => none
 
-/-- `np.linspace(0, 1, N + 1)[i]` -/
-def gridVal (N i : Nat) : Rat := (i : Rat) / (N : Rat)
+/-- `np.linspace(lo, hi, N + k)[i] = lo + i * (hi - lo) / (N + k - 1)`; `lo`, `hi`, `k` are LIFTED from the source
+    (`np.linspace(0, 1, self.grid_size + 1)`, `Generated/ThresholdFitSrc.lean`) -/
+def gridVal (N i : Nat) : Rat :=
+  ThresholdFitSrc.gridLo + (i : Rat) * (ThresholdFitSrc.gridHi - ThresholdFitSrc.gridLo) /
+    (((N + ThresholdFitSrc.gridExtra - 1 : Nat)) : Rat)
 
 def allSome {α} : List (Option α) → Option (List α)
   | [] => some []
@@ -243,9 +247,12 @@ structure Fit where
   rules : List Rule
 deriving Repr
 
-/-- frequency-weighted sum of the groups' interpolated objective -/
+/-- one entry of `overall_tradeoff_curve`: starting from the lifted start value, every group adds
+    `p_sensitive_feature_value * y` in group order — `groupFreq`, `objAccum`, `objInit` are the LIFTED expressions -/
 def objSimple (groups : List (List Row)) (is : List Interp) : Rat :=
-  (List.zipWith (fun (g : List Row) (r : Interp) => ((g.length : Rat) / (totalRows groups : Rat)) * r.y) groups is).sum
+  (List.zipWith (fun (g : List Row) (r : Interp) =>
+      (ThresholdFitSrc.groupFreq (g.length : Rat) (totalRows groups : Rat), r.y)) groups is).foldl
+    (fun acc py => ThresholdFitSrc.objAccum acc py.1 py.2) (ThresholdFitSrc.objInit 1)
 
 def curves (hulls : List (List Pt)) (N : Nat) : Option (List (List Interp)) :=
   allSome ((List.range (N + 1)).map (interpAll hulls N))
@@ -283,8 +290,10 @@ def totalNeg (groups : List (List Row)) : Nat := (groups.map nNeg).sum
 def objEO (obj : Metric) (groups : List (List Row)) (x y : Rat) : Rat :=
   obj.eval (eoCounts (totalNeg groups) (totalPos groups) x y)
 
+/-- the diagonal test, the value on the diagonal and the quotient are LIFTED (`Generated/ThresholdFitSrc.lean`) -/
 def pIgnore (r : Interp) (yBest : Rat) : Rat :=
-  if r.y = r.x then 0 else (r.y - yBest) / (r.y - r.x)
+  if ThresholdFitSrc.pIgnoreOnDiagonal r.x r.y then ThresholdFitSrc.pIgnoreDiagValue
+  else ThresholdFitSrc.pIgnoreValue r.x r.y yBest
 
 def eoRule (xBest yBest : Rat) (r : Interp) : Rule :=
   ⟨r.p0, r.op0, r.p1, r.op1, some (pIgnore r yBest, xBest)⟩
